@@ -639,21 +639,21 @@ def fp_cmd_protoc_gen_go_drpc_main_drpc_generateClientMethod : List String :=
     "s:Send(*", "s:) error", "if", "call:d.P", "s:Recv() (*", "s:, error)", "if", "call:d.P", "s:CloseAndRecv() (*", 
     "s:, error)", "call:d.P", "s:}", "call:d.P", "call:d.P", "s:type ", "call:d.ClientStreamImpl", 
     "s: struct {", "call:d.P", "call:d.Ident", "s:storj.io/drpc", "s:Stream", "call:d.P", "s:}", 
-    "call:d.P", "call:d.P", "s:func (x *", "call:d.ClientStreamImpl", "s:) GetStream() drpc.Stream {", 
-    "call:d.P", "s:return x.Stream", "call:d.P", "s:}", "call:d.P", "if", "call:d.P", "s:func (x *", 
-    "call:d.ClientStreamImpl", "s:) Send(m *", "s:) error {", "call:d.P", "s:return x.MsgSend(m, ", 
-    "call:d.EncodingName", "s:{})", "call:d.P", "s:}", "call:d.P", "if", "call:d.P", "s:func (x *", 
-    "call:d.ClientStreamImpl", "s:) Recv() (*", "s:, error) {", "call:d.P", "s:m := new(", "s:)", 
-    "call:d.P", "s:if err := x.MsgRecv(m, ", "call:d.EncodingName", "s:{}); err != nil { return nil, err }", 
-    "call:d.P", "s:return m, nil", "call:d.P", "s:}", "call:d.P", "call:d.P", "s:func (x *", "call:d.ClientStreamImpl", 
-    "s:) RecvMsg(m *", "s:) error {", "call:d.P", "s:return x.MsgRecv(m, ", "call:d.EncodingName", 
-    "s:{})", "call:d.P", "s:}", "call:d.P", "if", "call:d.P", "s:func (x *", "call:d.ClientStreamImpl", 
-    "s:) CloseAndRecv() (*", "s:, error) {", "call:d.P", "s:if err := x.CloseSend(); err != nil { return nil, err }", 
+    "call:d.P", "call:d.P", "s:func (x *", "call:d.ClientStreamImpl", "s:) GetStream() ", "call:d.Ident", 
+    "s:storj.io/drpc", "s:Stream", "s: {", "call:d.P", "s:return x.Stream", "call:d.P", "s:}", 
+    "call:d.P", "if", "call:d.P", "s:func (x *", "call:d.ClientStreamImpl", "s:) Send(m *", "s:) error {", 
+    "call:d.P", "s:return x.MsgSend(m, ", "call:d.EncodingName", "s:{})", "call:d.P", "s:}", "call:d.P", 
+    "if", "call:d.P", "s:func (x *", "call:d.ClientStreamImpl", "s:) Recv() (*", "s:, error) {", 
     "call:d.P", "s:m := new(", "s:)", "call:d.P", "s:if err := x.MsgRecv(m, ", "call:d.EncodingName", 
     "s:{}); err != nil { return nil, err }", "call:d.P", "s:return m, nil", "call:d.P", "s:}", 
-    "call:d.P", "call:d.P", "s:func (x *", "call:d.ClientStreamImpl", "s:) CloseAndRecvMsg(m *", 
-    "s:) error {", "call:d.P", "s:if err := x.CloseSend(); err != nil { return err }", "call:d.P", 
-    "s:return x.MsgRecv(m, ", "call:d.EncodingName", "s:{})", "call:d.P", "s:}", "call:d.P"]
+    "call:d.P", "call:d.P", "s:func (x *", "call:d.ClientStreamImpl", "s:) RecvMsg(m *", "s:) error {", 
+    "call:d.P", "s:return x.MsgRecv(m, ", "call:d.EncodingName", "s:{})", "call:d.P", "s:}", "call:d.P", 
+    "if", "call:d.P", "s:func (x *", "call:d.ClientStreamImpl", "s:) CloseAndRecv() (*", "s:, error) {", 
+    "call:d.P", "s:if err := x.CloseSend(); err != nil { return nil, err }", "call:d.P", "s:m := new(", 
+    "s:)", "call:d.P", "s:if err := x.MsgRecv(m, ", "call:d.EncodingName", "s:{}); err != nil { return nil, err }", 
+    "call:d.P", "s:return m, nil", "call:d.P", "s:}", "call:d.P", "call:d.P", "s:func (x *", "call:d.ClientStreamImpl", 
+    "s:) CloseAndRecvMsg(m *", "s:) error {", "call:d.P", "s:if err := x.CloseSend(); err != nil { return err }", 
+    "call:d.P", "s:return x.MsgRecv(m, ", "call:d.EncodingName", "s:{})", "call:d.P", "s:}", "call:d.P"]
 def fp_cmd_protoc_gen_go_drpc_main_drpc_generateServerSignature : List String :=
   ["s:error", "if", "&&", "u!", "call:method.Desc.IsStreamingServer", "u!", "call:method.Desc.IsStreamingClient", 
     "call:append", "call:d.Ident", "s:context", "s:Context", "+", "+", "s:(*", "call:d.OutputType", 
@@ -670,7 +670,7 @@ def fp_cmd_protoc_gen_go_drpc_main_drpc_generateUnimplementedServerMethod : List
     "s:WithCode", "s:(", "call:d.Ident", "s:errors", "s:New", "s:(\"Unimplemented\"), ", "call:d.Ident", 
     "s:storj.io/drpc/drpcerr", "s:Unimplemented", "s:)", "call:d.P", "s:}", "call:d.P"]
 def fp_cmd_protoc_gen_go_drpc_main_drpc_generateServerReceiver : List String :=
-  ["call:d.P", "+", "+", "s:func (srv interface{}, ctx context.Context, in1, in2 interface{}) (", 
+  ["call:d.P", "s:func (srv interface{}, ctx ", "call:d.Ident", "s:context", "s:Context", "s:, in1, in2 interface{}) (", 
     "call:d.Ident", "s:storj.io/drpc", "s:Message", "s:, error) {", "if", "&&", "u!", "call:method.Desc.IsStreamingServer", 
     "u!", "call:method.Desc.IsStreamingClient", "call:d.P", "s:return srv.(", "call:d.ServerIface", 
     "s:).", "call:d.P", "s:return nil, srv.(", "call:d.ServerIface", "s:).", "call:d.P", "s:(", 
@@ -686,19 +686,19 @@ def fp_cmd_protoc_gen_go_drpc_main_drpc_generateServerMethod : List String :=
     "if", "call:d.P", "s:SendAndClose(*", "call:d.OutputType", "s:) error", "if", "call:d.P", "s:Recv() (*", 
     "call:d.InputType", "s:, error)", "call:d.P", "s:}", "call:d.P", "call:d.P", "s:type ", "call:d.ServerStreamImpl", 
     "s: struct {", "call:d.P", "call:d.Ident", "s:storj.io/drpc", "s:Stream", "call:d.P", "s:}", 
-    "call:d.P", "call:d.P", "s:func (x *", "call:d.ServerStreamImpl", "s:) GetStream() drpc.Stream {", 
-    "call:d.P", "s:return x.Stream", "call:d.P", "s:}", "call:d.P", "if", "call:d.P", "s:func (x *", 
-    "call:d.ServerStreamImpl", "s:) Send(m *", "call:d.OutputType", "s:) error {", "call:d.P", 
-    "s:return x.MsgSend(m, ", "call:d.EncodingName", "s:{})", "call:d.P", "s:}", "call:d.P", "if", 
-    "call:d.P", "s:func (x *", "call:d.ServerStreamImpl", "s:) SendAndClose(m *", "call:d.OutputType", 
-    "s:) error {", "call:d.P", "s:if err := x.MsgSend(m, ", "call:d.EncodingName", "s:{}); err != nil { return err }", 
-    "call:d.P", "s:return x.CloseSend()", "call:d.P", "s:}", "call:d.P", "if", "call:d.P", "s:func (x *", 
-    "call:d.ServerStreamImpl", "s:) Recv() (*", "call:d.InputType", "s:, error) {", "call:d.P", 
-    "s:m := new(", "call:d.InputType", "s:)", "call:d.P", "s:if err := x.MsgRecv(m, ", "call:d.EncodingName", 
-    "s:{}); err != nil { return nil, err }", "call:d.P", "s:return m, nil", "call:d.P", "s:}", 
-    "call:d.P", "call:d.P", "s:func (x *", "call:d.ServerStreamImpl", "s:) RecvMsg(m *", "call:d.InputType", 
-    "s:) error {", "call:d.P", "s:return x.MsgRecv(m, ", "call:d.EncodingName", "s:{})", "call:d.P", 
-    "s:}", "call:d.P"]
+    "call:d.P", "call:d.P", "s:func (x *", "call:d.ServerStreamImpl", "s:) GetStream() ", "call:d.Ident", 
+    "s:storj.io/drpc", "s:Stream", "s: {", "call:d.P", "s:return x.Stream", "call:d.P", "s:}", 
+    "call:d.P", "if", "call:d.P", "s:func (x *", "call:d.ServerStreamImpl", "s:) Send(m *", "call:d.OutputType", 
+    "s:) error {", "call:d.P", "s:return x.MsgSend(m, ", "call:d.EncodingName", "s:{})", "call:d.P", 
+    "s:}", "call:d.P", "if", "call:d.P", "s:func (x *", "call:d.ServerStreamImpl", "s:) SendAndClose(m *", 
+    "call:d.OutputType", "s:) error {", "call:d.P", "s:if err := x.MsgSend(m, ", "call:d.EncodingName", 
+    "s:{}); err != nil { return err }", "call:d.P", "s:return x.CloseSend()", "call:d.P", "s:}", 
+    "call:d.P", "if", "call:d.P", "s:func (x *", "call:d.ServerStreamImpl", "s:) Recv() (*", "call:d.InputType", 
+    "s:, error) {", "call:d.P", "s:m := new(", "call:d.InputType", "s:)", "call:d.P", "s:if err := x.MsgRecv(m, ", 
+    "call:d.EncodingName", "s:{}); err != nil { return nil, err }", "call:d.P", "s:return m, nil", 
+    "call:d.P", "s:}", "call:d.P", "call:d.P", "s:func (x *", "call:d.ServerStreamImpl", "s:) RecvMsg(m *", 
+    "call:d.InputType", "s:) error {", "call:d.P", "s:return x.MsgRecv(m, ", "call:d.EncodingName", 
+    "s:{})", "call:d.P", "s:}", "call:d.P"]
 
 def twirpStatus : List (String × Nat) := [("canceled", 408), ("unknown", 500), ("invalid_argument", 400), ("malformed", 400), ("deadline_exceeded", 408), ("not_found", 404), ("bad_route", 404), ("already_exists", 409), ("permission_denied", 403), ("unauthenticated", 401), ("resource_exhausted", 429), ("failed_precondition", 412), ("aborted", 409), ("out_of_range", 400), ("unimplemented", 501), ("internal", 500), ("unavailable", 503), ("dataloss", 500)]
 def defaultProtocols : List (String × String) := [("*", "twirpProtocol ct=application/proto marshal=protoMarshal unmarshal=protoUnmarshal"),
